@@ -10,6 +10,7 @@ pub fn run(ctx: &Ctx) -> Report {
         Plan { fam: "BASE", styles: plain.clone(), debug: both.clone(), stride: 1 },
         Plan { fam: "LIM", styles: plain.clone(), debug: both.clone(), stride: 1 },
         Plan { fam: "BLK", styles: plain.clone(), debug: both.clone(), stride: 1 },
+        Plan { fam: "BIG", styles: plain.clone(), debug: both.clone(), stride: 1 },
         Plan { fam: "FENCE", styles: plain.clone(), debug: both.clone(), stride: 1 },
         Plan { fam: "LAB", styles: plain.clone(), debug: both.clone(), stride: 1 },
         Plan { fam: "S2", styles: plain.clone(), debug: vec![true], stride: 1 },
